@@ -40,6 +40,15 @@ var familyTokens = map[string][]string{
 	"set":  {"sadd", "srem", "scard", "sismember", "smismember", "smembers", "smove", "srandmember", "spop", "sscan", "sinter", "sunion", "sdiff", "sinterstore", "sunionstore", "sdiffstore", "sintercard"},
 }
 
+// tokenScope: the commands of one family, for rules that iterate over command tokens
+func tokenScope(fam string) func(tok string, cmd *GCmd) bool {
+	set := map[string]bool{}
+	for _, t := range familyTokens[fam] {
+		set[t] = true
+	}
+	return func(tok string, cmd *GCmd) bool { return set[tok] }
+}
+
 // familyHandlers: the handler functions of a family (tokens that the table does not have are ignored; at least half
 // of the family must resolve or the scope is reported as unresolved).
 func familyHandlers(c *Ctx, fam string) (map[*ssa.Function]bool, error) {
@@ -152,31 +161,31 @@ func init() {
 	reg("C01",
 		"Structure of the connection loop and of the serializer, decided on all paths: (R-C01-rearm) the per-command goroutine writes exactly once and re-arms the read only after a successful write, the socket is read only under the wait state, dispatching and re-arming are exclusive — one command in flight, replies in request order; (R-C01-consume) the buffer is advanced by exactly the length the parser returned for the dispatched value, is otherwise only appended to, and no parser object survives a read — replies depend on the concatenated bytes only; (R-C01-lenprefix) every length prefix is len() of the payload written; (R-C01-line) the line emitter strips CR/LF or no simple/error string embeds request bytes.",
 		"that the parser answers 'need more' for every strict prefix of a frame (argued from its left-to-right determinism, not checked); byte-for-byte round trip of stored values through []rune conversions in glob/LCS",
-		nil, ruleC01Rearm, ruleC01Consume, ruleC01LenPrefix, ruleC01Line)
+		nil, ruleC01Rearm, ruleC01Consume, ruleC01LenPrefix, ruleC01Line, ruleC01Frame)
 	reg("C02",
 		"Structural clauses of the string/counter family: command identity from the normalised token (R-cmdident), the signed-overflow idiom compares with the other addend (R-overflow-idiom), MSETNX checks before it writes (R-C02-msetnx-phase), every argument the handlers read is produced by the grammar with that type (A7, redisKeys.go), the string commands flagged readonly reach no mutation site (A5-readonly). (A4-inert, string family) no failure point is reachable after a change point: validation precedes the first write.",
 		"reply values, clamping arithmetic of GETRANGE/SETRANGE, LCS output, float formatting, TTL classes (keep/reset/from-argument)",
-		nil, ruleCmdIdent, ruleOverflowIdiom, ruleMsetnxPhase, a7Family(15, "string"), ruleReadonly(nil), family(3, "string", ruleA4Inert))
+		nil, ruleCmdIdent, ruleOverflowIdiom, ruleMsetnxPhase, a7Family(15, "string"), ruleReadonly(tokenScope("string")), family(3, "string", ruleA4Inert))
 	reg("C03",
 		"Structural clauses of the list family: no push onto a list that may just have been detached from the keyspace (R-C03-detached: LMOVE with source = destination), emptiness test after every unlink (A4-empty), an element is inserted after every creation of an empty list (A4-nonempty-create), list constructors set the complete link/count field set (R-ctor-agree), typed-accessor results are nil-tested before use (R-typed-nil), argument agreement with the grammar (A7, redisList.go). (R-list-shape) every function that writes list links is executed symbolically path by path from a well-formed list and leaves the written heap well formed: back links, head.prev=nil, tail.next=nil, head nil iff tail nil, count adjusted by the nodes linked/detached; (R-list-unlinked-use) a detached node is not followed; (A4-inert) failed list commands change nothing.",
-		"order preservation, index normalisation, LPOS/LREM/LINSERT results — runtime values; no shape analysis of the doubly linked list",
-		nil, ruleDetached, ruleListShape, ruleListUnlinkedUse, family(3, "list", ruleA4Empty), family(1, "list", ruleNonEmptyCreate), ruleCtorAgree, family(3, "list", ruleTypedNil), family(3, "list", ruleA4Inert), a7Family(15, "list"))
+		"which element a command selects (index normalisation, LPOS/LREM/LINSERT/LTRIM ranges, counts) and the replies — runtime values; the shape rule covers the link-writing primitives, not the choice of node they are applied to",
+		nil, ruleDetached, ruleListShape, ruleListUnlinkedUse, ruleReadonly(tokenScope("list")), family(3, "list", ruleA4Empty), family(1, "list", ruleNonEmptyCreate), ruleCtorAgree, family(3, "list", ruleTypedNil), family(3, "list", ruleA4Inert), a7Family(15, "list"))
 	reg("C04",
 		"Structural clauses of the hash family: sibling handlers' distinguishing parameter is used by the shared helper (R-sibling-param: HSETNX), overflow idiom (R-overflow-idiom: HINCRBY), emptiness test after field removal (A4-empty), insertion after creation (A4-nonempty-create), nil-tested accessors (R-typed-nil), argument agreement (A7, redisHashTable.go). (A4-inert, hash family) failed hash commands change nothing.",
 		"field/value contents, HRANDFIELD distribution, float formatting, dictionary growth/shrink arithmetic",
-		nil, ruleSiblingParam, ruleOverflowIdiom, family(1, "hash", ruleA4Empty), family(1, "hash", ruleNonEmptyCreate), family(3, "hash", ruleTypedNil), family(3, "hash", ruleA4Inert), a7Family(12, "hash"))
+		nil, ruleSiblingParam, ruleOverflowIdiom, ruleDictReadersPure, ruleReadonly(tokenScope("hash")), family(1, "hash", ruleA4Empty), family(1, "hash", ruleNonEmptyCreate), family(3, "hash", ruleTypedNil), family(3, "hash", ruleA4Inert), a7Family(12, "hash"))
 	reg("C05",
 		"Structural clauses of the set family: commands flagged readonly (SINTER/SUNION/SDIFF/SMEMBERS/…) reach no mutation site of database state — the algebra workers never modify an operand, they work on fresh dictionaries (A5-readonly; write commands reach one); emptiness test after member removal (A4-empty), insertion after creation (A4-nonempty-create), nil-tested accessors, argument agreement (A7, redisSet.go). (R-payload-own) every installed payload is a new object or the same key's own, never an operand's dictionary; (R-store-nonempty) a computed set is installed only when its count is not zero; (R-C05-operand-loop) workers leave the operand loop early only for failure or the absorbing empty set; (R-C05-self-move) SMOVE compares its two key names; (A4-inert) failed set commands change nothing.",
-		"that the computed set equals the mathematical result; that a STORE of an empty result deletes the destination",
-		nil, ruleReadonly(nil), rulePayloadOwn, ruleOperandLoop, ruleStoreNonEmpty, ruleSelfMove, family(2, "set", ruleA4Empty), family(1, "set", ruleNonEmptyCreate), family(3, "set", ruleTypedNil), family(3, "set", ruleA4Inert), a7Family(10, "set"))
+		"that the computed set equals the mathematical result (membership is a runtime value); SRANDMEMBER/SPOP selection; replies such as the 0/1 of SMOVE",
+		nil, ruleReadonly(tokenScope("set")), rulePayloadOwn, ruleOperandLoop, ruleStoreNonEmpty, ruleSelfMove, ruleDictReadersPure, family(2, "set", ruleA4Empty), family(1, "set", ruleNonEmptyCreate), family(3, "set", ruleTypedNil), family(3, "set", ruleA4Inert), a7Family(10, "set"))
 	reg("C06",
 		"Structural necessary conditions of keyspace discipline, decided for every site of the current source: (A4-empty) after every site that can shrink a list/hash/set every path to the end of the critical section tests the aggregate's count against zero and removes the key on the empty side; (A4-nonempty-create) an element is inserted after every creation of an empty aggregate; (R-payload-agree) every type assertion on a key's payload is dominated by a test of the key-type flag and asserts the Go type producers store for that flag; (R-ctor-agree) list constructors (COPY, load) set the full field set; (R-typed-nil) typed-accessor results are nil-tested before dereference (WRONGTYPE before any use); (A7, redisCore.go) options of the keyspace commands are producible by the grammar; (A6) the keyspace commands (EXISTS, TYPE, RENAME(NX), COPY, KEYS, RANDOMKEY, DBSIZE ...) see the keyspace only through an expiry filter, so an expired key is absent for them as the property demands. (A4-inert) in every handler and store method no failure point is reachable after a change point; (R-payload-own, R-store-nonempty) payload objects are never shared between keys and computed aggregates are installed only when non-empty.",
 		"glob matching, SORT ordering, DBSIZE/KEYS values, deep-copy equality of COPY/RENAME as values",
-		nil, ruleA4Empty, ruleNonEmptyCreate, rulePayloadAgree, ruleCtorAgree, ruleTypedNil, ruleA6, ruleA4Inert, rulePayloadOwn, ruleStoreNonEmpty, a7Files(20, "redisCore.go"))
+		nil, ruleA4Empty, ruleNonEmptyCreate, rulePayloadAgree, ruleCtorAgree, ruleTypedNil, ruleA6, ruleA4Inert, rulePayloadOwn, ruleStoreNonEmpty, ruleSameKeyOrder, ruleDictReadersPure, a7Files(20, "redisCore.go"))
 	reg("C07",
 		"A6 (who-may-read the keyspace raw): every read of a database's keyspace dictionary goes through an expiry filter (tests isExpired, yields (nil,false) on the expired edge), or is an iteration that tests isExpired per element, or is the snapshot writer (identified as the function that drives the gob encoder). This is exactly the universally quantified 'every command treats an expired key as missing' clause.",
 		"deadline arithmetic, TTL/PTTL/EXPIRETIME values, NX/XX/GT/LT comparisons, which commands keep/reset/set the deadline, behaviour at the deadline instant (time is a runtime quantity)",
-		nil, ruleA6)
+		nil, ruleA6, ruleReplaceClearsTTL)
 	reg("C08",
 		"Under the lock-class assumption: (A1-DB) every access to database state happens with the database mutex held on every path from every root; (lock-balanced) no function returns with the mutex possibly still held; (A3) every keyspace command opens at most one critical section (blocking commands: per attempt). Together this is the static form of strict two-phase locking with one lock, which implies atomicity of single-database commands. (A1-payload-bytes) published byte payloads are never written in place; (R-C14-dbtable, R-C14-select) there is one database object and one mutex per index — the premise of the lock-class abstraction.",
 		"real-time ordering across connections beyond mutual exclusion; cross-database scenarios; wrap-around of the 27-bit command id compared by the re-entrant lock",
@@ -184,7 +193,7 @@ func init() {
 		ruleA1("A1-guarded", onlyDB), ruleLockBalanced(nil), ruleA3, ruleA1PayloadBytes, ruleC14DbTable, ruleC14Select)
 	reg("C09",
 		"Structure of the MULTI/EXEC implementation, decided on all paths: state reset on every exit of EXEC/DISCARD; commands are only queued while a queue exists (append guard, non-nil response after append, handler call dominated by response==nil, control table = {multi,exec,discard,watch}); EXEC replays under the exclusive database hold with the lock id rewritten; a prepared command is never re-bound to another database; error branches of the control commands do not touch queue/watches; a command rejected while queueing leaves a mark EXEC reads; nothing replayable takes the database mutex non-re-entrantly. (R-C09-replay-unconditional) in the replay function no branch that can skip the handler reads state that another goroutine can change.",
-		"isolation against other connections beyond the lock argument of C08; reply contents; guards inside the dispatcher that depend on connection state other than the queue",
+		"isolation against other connections beyond the lock argument of C08; reply contents and their order inside the EXEC reply",
 		nil, ruleC09Reset, ruleC09QueueOnly, ruleC09Exclusive, ruleC09AbortFlag, ruleC09ErrorsInert, ruleA2Reentrant, ruleC09Bind, ruleC09Replay)
 	reg("C10",
 		"A4-version: 'every kind of modification is visible to the comparison at EXEC' is a claim over all write sites: every mutation site of database state (including replacement of the whole keyspace by a flush) has, on every path through it inside its critical section, an event that gives the key a new version id or removes it from the keyspace. A6: the version comparison and the capture at WATCH use the expiry-aware lookup. R-C09-reset: the watch set is cleared on every exit of EXEC/DISCARD.",
@@ -201,8 +210,8 @@ func init() {
 		nil, ruleC12, ruleC12Deadline, ruleC12TimeoutAgree)
 	reg("C13",
 		"No path of these crash/stall classes is reachable from the socket: (A7) every single-result type assertion on a value taken from a command's args agrees with what the grammar-driven parser stores for every token that reaches it, and every panic in the default arm of a key switch has a case for every producible key; (R-typed-nil) no nil typed-accessor result is dereferenced; (R-payload-agree) no payload assertion can fail for a key type; (lock-balanced, A2-reentrant) no command returns holding, or self-deadlocks on, the database mutex; (R-cmdident) handler behaviour does not depend on the client's spelling of the command.",
-		"sizes/indexes/shifts computed from client integers (A8 not built), framing checks of the request parser, bounds safety of indexes computed from server-side lengths, termination of loops, memory growth, reply latency",
-		nil, ruleA7(nil, 120, true), ruleA8, ruleLockBalanced(nil), ruleA2Reentrant, ruleTypedNil, rulePayloadAgree, ruleCmdIdent, ruleIndex0("respDeserializer.go", "clientCxn.go", "cmdDispatcher.go", "redisArgParser.go"))
+		"bounds safety of indexes computed from server-side lengths or by bit arithmetic (bitMath.go, bitmapUtils.go are outside A8), explicit panic() calls guarding internal invariants, termination of loops, memory growth, reply latency",
+		nil, ruleA7(nil, 120, true), ruleA8, ruleLockBalanced(nil), ruleA2Reentrant, ruleTypedNil, rulePayloadAgree, ruleCmdIdent, ruleIndex0("respDeserializer.go", "clientCxn.go", "cmdDispatcher.go", "redisArgParser.go"), ruleValidateAll)
 	reg("C14",
 		"(R-C14-dbtable) entries of the database table are inserted only when absent and after the index range test, and are never deleted or replaced (a flush empties a database in place), so every connection that selected a database keeps seeing it; (R-C14-select) the connection's selection changes only under the validity result, and a command is bound to the database of the connection it was prepared for; (A1 modes) per-connection session state is not touched through another connection's clientState. (R-C14-enumerate) index loops over the database table cover exactly the indexes the guarded creator admits; range enumerations are complete by construction.",
 		"values returned by DBSIZE, cross-connection visibility timing",
